@@ -24,6 +24,7 @@ META = {
                     "inconclusive (watchdog), not a violation",
                     "ties within 1e-12 in the parent choice are accepted"],
 }
+REQUIRED_CLASSES = ["entry:findPath", "obstruction:straddles_bounds"]
 REQUIRED_CLAUSES = ["root", "count", "reaches_root", "cost_recurrence", "edges_free", "accept_band", "parent_choice", "path", "budget_one"]
 
 
@@ -56,9 +57,10 @@ def gen_config(rng, maxit):
                 continue
             boxes.append([lo.tolist(), hi.tolist()])
     callbacks = gen.pick(rng, ["builtin", "builtin", "custom", "mixed"])
+    entry = "findPath" if callbacks == "builtin" and rng.random() < 0.6 else "general"
     return {"bounds": bounds, "dmode": dmode, "min": mn, "max": mx, "iterations": it, "limit": int(rng.integers(1, 21)), "layout": layout,
             "boxes": boxes, "terrain": [half, half, half / 4, half / 4, 0.2 * half] if layout == "terrain" else None,
-            "start": start.tolist(), "goal": np.concatenate([rng.uniform(-half, half, 3), np.zeros(3)]).tolist(), "callbacks": callbacks,
+            "start": start.tolist(), "goal": np.concatenate([rng.uniform(-half, half, 3), np.zeros(3)]).tolist(), "callbacks": callbacks, "entry": entry,
             "custom_parts": [bool(x) for x in (rng.random(3) < 0.5)] if callbacks == "mixed" else [callbacks == "custom"] * 3,
             "seed": int(rng.integers(1 << 30))}
 
@@ -89,6 +91,10 @@ def run_case(cfg, ctx, tm, fsr, RRTStar, PathNode):
     if cfg["terrain"]:
         pl.generateTerrain(*cfg["terrain"])
     boxes = [(np.asarray(o[0].gTAA()).reshape(6)[:3], np.asarray(o[1].gTAA()).reshape(6)[:3]) for o in pl.obstructions]
+    _b = np.array(cfg["bounds"][:3], dtype=float)
+    if any((np.any(np.minimum(a, b) < _b[:, 0]) or np.any(np.maximum(a, b) > _b[:, 1])) and np.all(np.maximum(a, b) > _b[:, 0]) and np.all(np.minimum(a, b) < _b[:, 1])
+           for a, b in boxes):
+        ctx.cls("obstruction:straddles_bounds")
     if cfg["terrain"]:
         # keep the start outside the generated blocks
         s3 = np.array(cfg["start"][:3])
@@ -153,8 +159,32 @@ def run_case(cfg, ctx, tm, fsr, RRTStar, PathNode):
         return r
     goal = tm(np.array(cfg["goal"], dtype=float))
     tagm = cfg["callbacks"]
+    entry = cfg.get("entry", "general")
+    if entry == "findPath":
+        # the planner's own entry point with its built-in sampler / metric / collision test; observed through instance-level
+        # wrappers (generateTree looks the three up on the instance)
+        tagm = "builtin:findPath"
+        orig_rand, orig_obs = pl.randomPos, pl.obstruction
+
+        def rand_rec(*a, **k):
+            n = orig_rand(*a, **k)
+            rec("gen", p=key6(n.getPosition()))
+            return n
+
+        def obs_rec(a, b, *rest, **k):
+            r = orig_obs(a, b, *rest, **k)
+            rec("coll", a=key6(a.getPosition()), b=key6(b.getPosition()), r=bool(r))
+            return r
+        pl.randomPos, pl.obstruction = rand_rec, obs_rec
+        ctx.cls("entry:findPath")
     try:
-        path = pl.findPathGeneral(lambda: pl.generalGenerateTree(gen_rec, dist_f, coll_rec), goal)
+        if entry == "findPath":
+            try:
+                path = pl.findPath(goal)
+            finally:
+                del pl.randomPos, pl.obstruction
+        else:
+            path = pl.findPathGeneral(lambda: pl.generalGenerateTree(gen_rec, dist_f, coll_rec), goal)
     except ZeroDivisionError as e:
         import traceback
         ctx.clause("budget_one" if cfg["iterations"] == 1 else "returns")
